@@ -36,6 +36,13 @@ namespace ip {
 	{}
 
 	template<typename Protocol>
+	basic_resolver<Protocol>::~basic_resolver()
+	{
+		// complete pending lookups with operation_aborted, like asio does
+		cancel();
+	}
+
+	template<typename Protocol>
 	basic_resolver<Protocol>::basic_resolver(basic_resolver<Protocol>&&) noexcept = default;
 
 	template<typename Protocol>
